@@ -1258,13 +1258,13 @@ class AbsPaths:
         val = None
         if k == "use":
             val = self._eval_operand(st, r["o"])
-        elif k == "agg" and "adt" in r:
+        elif k == "agg" and ("adt" in r or "tuple" in r):
             fields = []
             for i, o in enumerate(r["ops"]):
                 fv = self._eval_operand(st, o)
                 if fv is not None:
                     fields.append((i, fv))
-            val = ("variant", r["v"], tuple(fields))
+            val = ("variant", r["v"] if "adt" in r else "()", tuple(fields))
         elif k == "ref":
             q = r["p"]
             if not q["p"]:
@@ -1313,6 +1313,54 @@ class AbsPaths:
 
         self.explore(start, observe=obs)
         return vals
+
+    def trace(self, start, state=None, max_len=400, observe=None):
+        """Follow the unique feasible path from the beginning of `start`; returns the block list up to a return,
+        or raises Undecided when the abstract state leaves more than one successor."""
+        fn = self.fn
+        st = dict(state or {})
+        b = start
+        out = []
+        seen = set()
+        while True:
+            out.append(b)
+            if len(out) > max_len or (b, tuple(sorted(st.items()))) in seen:
+                raise AbsPaths.Undecided("path does not terminate")
+            seen.add((b, tuple(sorted(st.items()))))
+            for s in fn.stmts(b):
+                if s["k"] == "assign":
+                    if is_noise(s):
+                        st.pop(s["p"]["l"], None)
+                    else:
+                        self._assign(st, s)
+                elif s["k"] == "dead":
+                    st.pop(int(s["l"]), None)
+            t = fn.term(b)
+            if observe is not None:
+                observe(b, st)
+            if t["k"] == "return":
+                return out
+            if t["k"] == "call":
+                if is_noise(t):
+                    st.pop(t["dest"]["l"], None)
+                else:
+                    self._call(st, t)
+            nxt = []
+            for s2 in fn.succ[b]:
+                lab = self.labels.get((b, s2))
+                if lab is not None and t["k"] == "switch":
+                    if lab.kind == "variant":
+                        v = self._eval_place(st, lab.place)
+                        if v is not None and v[0] == "variant" and v[1] not in lab.variants:
+                            continue
+                    elif lab.kind == "bool" and lab.raw is not None:
+                        v = self._eval_operand(st, t["o"])
+                        if v is not None and v[0] == "const" and v[1] in ("true", "false") and (v[1] == "true") != lab.raw:
+                            continue
+                nxt.append(s2)
+            if len(nxt) != 1:
+                raise AbsPaths.Undecided("%d feasible successors at bb%d" % (len(nxt), b))
+            b = nxt[0]
 
     def explore(self, start, stop_blocks=(), state=None, avoid_edges=(), observe=None):
         """All blocks reachable from the beginning of `start` on feasible paths; blocks in stop_blocks are
@@ -1411,3 +1459,45 @@ def layer_stack(ty):
     if head.endswith("layer::util::Stack") and len(args) == 2:
         return [args[0]] + layer_stack(args[1])
     return [ty]
+
+
+def awaits(fn):
+    """`.await` sites of a coroutine body: [{future: CallSite creating the future (or None), into: CallSite of into_future,
+    poll: CallSite polling it, ready_edge: (a, b), pending_edge: (a, b), result: local holding the output}]"""
+    out = []
+    for c in fn.calls(noise=True):
+        if not norm(c.decl or c.name).endswith("IntoFuture::into_future"):
+            continue
+        if not any("desugar:Await" in e for e in (c.t.get("x") or [])):
+            continue
+        fut = fn.call_defining(op_place(c.args[0])["l"]) if op_place(c.args[0]) else None
+        # the poll: first call after into_future whose first argument roots in the into_future result
+        poll = None
+        for d in fn.calls(noise=True):
+            if d.bb == c.bb or not fn.dominates(c.bb, d.bb):
+                continue
+            if not any("desugar:Await" in e for e in (d.t.get("x") or [])):
+                continue
+            n = norm(d.decl or d.name)
+            if n.endswith("get_context") or n.endswith("Pin::new_unchecked") or n.endswith("IntoFuture::into_future"):
+                continue
+            rr = fn.roots(d.args[0], through_calls=True) if d.args else set()
+            if any(r.kind == "call" and r.site.bb == c.bb for r in rr):
+                if poll is None or fn.dominates(d.bb, poll.bb):
+                    poll = d
+        if poll is None:
+            continue
+        ready = pending = None
+        res = None
+        for (a, b, lab) in fn.edges():
+            if lab is None or lab.kind != "variant":
+                continue
+            s = fn.call_defining(lab.place["l"])
+            if s is None or s.bb != poll.bb or any(isinstance(e, dict) and "d" in e for e in lab.place["p"]):
+                continue
+            if lab.variants == {"Ready"}:
+                ready = (a, b)
+            elif lab.variants == {"Pending"}:
+                pending = (a, b)
+        out.append({"future": fut, "into": c, "poll": poll, "ready_edge": ready, "pending_edge": pending})
+    return out
